@@ -76,4 +76,34 @@ example : ((replayR maxQCapacity (opsOn 0 (runOps currentCfg (World.start fun _ 
 example : gcProj [.give 1, .give 2, .collect [], .take, .collect [], .take, .give 3, .give 4, .collect [], .take, .give 5]
           = opsOn 0 (runOps currentCfg (World.start fun _ => 3) pumpActs) := by decide
 
+/-- **driver_rings_are_world_items** (what the correspondence run compares): the scheduler of the driver keeps one ring
+    per channel and after every `step` applies that step's item-queue calls to it (`runRings` = `Exec.doStep`'s
+    `applyRings`); for every action sequence making fewer than JANET_MAX_Q_CAPACITY item-queue calls, that ring is
+    well-formed, it is the replay of the whole trace, and its content is the item list of `World` - so the
+    head / tail / capacity printed in every logged state (and found equal to the real channel's ring) belong to a ring
+    whose content is the list all other C06 theorems speak about. -/
+theorem driver_rings_are_world_items (limits : Nat → Nat) (as : List Action)
+    (hn : (runOps currentCfg (World.start limits) as).length < maxQCapacity) (c : Nat) :
+    let w := run currentCfg (World.start limits) as
+    let r := runRings currentCfg maxQCapacity (World.start limits) (fun _ => RingQ.init 0) as c
+    r.WF ∧ r.toList = (w.chans c).items ∧
+    replayR maxQCapacity (opsOn c (runOps currentCfg (World.start limits) as)) (RingQ.init 0) = some r := by
+  intro w r
+  have hall : ∀ c, ∃ q, replayR maxQCapacity (opsOn c (runOps currentCfg (World.start limits) as)) (RingQ.init 0) = some q := by
+    intro c'
+    cases hq : replayR maxQCapacity (opsOn c' (runOps currentCfg (World.start limits) as)) (RingQ.init 0) with
+    | some q => exact ⟨q, rfl⟩
+    | none =>
+      have h1 := (items_are_ring_contents limits as c').2.2 hq
+      have h2 := opsOn_length c' (runOps currentCfg (World.start limits) as)
+      omega
+  have hr := runRings_replay currentCfg maxQCapacity as (World.start limits) (fun _ => RingQ.init 0) hall c
+  have := (items_are_ring_contents limits as c).2.1 r hr
+  exact ⟨this.1, this.2, hr⟩
+
+example : ((runRings currentCfg maxQCapacity (World.start fun _ => 3) (fun _ => RingQ.init 0) pumpActs 0).head,
+           (runRings currentCfg maxQCapacity (World.start fun _ => 3) (fun _ => RingQ.init 0) pumpActs 0).tail,
+           (runRings currentCfg maxQCapacity (World.start fun _ => 3) (fun _ => RingQ.init 0) pumpActs 0).cap) = (3, 1, 4) := by
+  decide
+
 end JanetModel.Props.C06
